@@ -266,6 +266,12 @@ def ofR {α} (r : R α) (e : E) : Except E α :=
   | .err => .error e
   | .oob => .error .oob
 
+/-- the signature length btokCVCUnwrap expects: derived from the verification key, or probed (34|48|72|96) -/
+def sigLenOf (vk : Option Bytes) (rest : Bytes) : Except E Nat :=
+  match vk with
+  | some k => .ok (if k.length = 48 then 34 else k.length - k.length / 4)
+  | none => ofR (sigLenProbe rest) .badFormat
+
 /-- btokCVCUnwrap(cvc, cert, cert_len, pubkey, pubkey_len) -/
 def cvcUnwrap (S : Sig) (cert : Bytes) (arg : PkArg) : Except E Cvc :=
   match arg with
@@ -274,29 +280,37 @@ def cvcUnwrap (S : Sig) (cert : Bytes) (arg : PkArg) : Except E Cvc :=
   | .self => go none true
   | .none => go none false
 where
-  go (pk : Option Bytes) (self : Bool) : Except E Cvc := do
-    let (a, t) ← ofR (derTSEQDecStart cert 0x7F21) .badFormat
-    let (c, t2) ← ofR (bodyDec (cert.drop t)) .badFormat
-    let body := (cert.drop t).take t2
-    let p := t + t2
-    -- the verification key
-    let vk : Option Bytes := match pk with
-      | some k => some k
-      | none => if self then some c.pubkey else none
-    let sigLen ← match vk with
-      | some k => pure (if k.length = 48 then 34 else k.length - k.length / 4)
-      | none => ofR (sigLenProbe (cert.drop p)) .badFormat
-    let (sig, t3) ← ofR (derTOCTDec2 (cert.drop p) 0x5F37 sigLen) .badFormat
-    let c := { c with sig := sig }
-    let p := p + t3
-    match vk with
-    | some k => let code := S.verify body sig k; if code ≠ .ok then throw code
-    | none => pure ()
-    let _ ← ofR (derTSEQDecStop p a) .badFormat
-    if cert.length - p ≠ 0 then throw .badFormat
-    let code := cvcCheck S c
-    if code ≠ .ok then throw code
-    pure c
+  go (pk : Option Bytes) (self : Bool) : Except E Cvc :=
+    match ofR (derTSEQDecStart cert 0x7F21) .badFormat with
+    | .error e => .error e
+    | .ok (a, t) =>
+      match ofR (bodyDec (cert.drop t)) .badFormat with
+      | .error e => .error e
+      | .ok (c, t2) =>
+        let body := (cert.drop t).take t2
+        let p := t + t2
+        -- the verification key
+        let vk : Option Bytes := match pk with
+          | some k => some k
+          | none => if self then some c.pubkey else none
+        match sigLenOf vk (cert.drop p) with
+        | .error e => .error e
+        | .ok sigLen =>
+          match ofR (derTOCTDec2 (cert.drop p) 0x5F37 sigLen) .badFormat with
+          | .error e => .error e
+          | .ok (sig, t3) =>
+            let c := { c with sig := sig }
+            let p := p + t3
+            let vcode : E := match vk with
+              | some k => S.verify body sig k
+              | none => .ok
+            if vcode ≠ .ok then .error vcode else
+            match ofR (derTSEQDecStop p a) .badFormat with
+            | .error e => .error e
+            | .ok _ =>
+              if cert.length - p ≠ 0 then .error .badFormat else
+              let code := cvcCheck S c
+              if code ≠ .ok then .error code else .ok c
 
 /-- btokCVCIss -/
 def cvcIss (S : Sig) (c : Cvc) (certa priva : Bytes) : E × Cvc × Bytes :=
